@@ -16,6 +16,12 @@ R32.4 only the macros referenced by the transpiled queries are installed, plus t
       datasets of that step (a result can have a Time_Period column - cast, time_agg, … - when no input has a time column); the
       format -> macro table of execute_queries equals the one of apply_time_period_representation.  Otherwise the step
       fails with a raw CatalogException
+R32.5 contradiction rule: a node class X whose SQL handler (visit_X or a helper it passes `node` to) treats node.operand / node.children
+      as a DATASET (asks _is_dataset / _get_dataset_sql / _get_dataset_structure / _apply_measures about it) produces a dataset-level
+      SELECT; then (a) the operand-type classifier _get_node_type must be able to answer "dataset" for X - not a constant
+      component / scalar answer - and (b) _get_dataset_structure must have a branch for X.  Otherwise an enclosing operator
+      (abs(X(DS)), X(DS)[filter …], X(DS) = X(DS)) takes the SELECT for a scalar expression or finds no structure: a raw DuckDB
+      ParserException or a Python TypeError escapes run() (known findings: Analytic, TimeAggregation)
 Not decided: which DuckDB errors can occur for well-typed inputs; the fall-through of _map_query_error for unknown messages
 (recorded as a known finding with a demonstrated input).
 """
@@ -342,6 +348,10 @@ def run(rep: Report, tier: str) -> None:
     rep.rule("R32.4", "macros called by the load / fetch steps are installed under a condition on the datasets those steps work on")
     _macro_availability(P, rep, cg)
 
+    # ---- R32.5 node classes with a dataset-level SQL form are datasets for the classifier and the structure dispatcher ----
+    rep.rule("R32.5", "every node class whose SQL handler has a dataset-level form is classified as a possible dataset and has a structure for nested use")
+    _dataset_form_agreement(P, rep)
+
     # ---- R32.3 ---------------------------------------------------------------------------------------------
     roots = [f"{TR}.transpile", f"{EXEC}.execute_queries"]
     reach2 = cg.reachable_from([r for r in roots if r in P.functions])
@@ -536,3 +546,66 @@ def _enum_values(P: Program, cq: str) -> Dict[str, str]:
         if isinstance(st, ast.Assign) and isinstance(st.targets[0], ast.Name) and isinstance(st.value, ast.Constant) and isinstance(st.value.value, str):
             out[st.targets[0].id] = st.value.value
     return out
+
+
+def _dataset_form_agreement(P: Program, rep: Report) -> None:  # noqa: C901
+    SV = "vtlengine.duckdb_transpiler.Transpiler.structure_visitor.StructureVisitor"
+    ci = P.classes[TR]
+    NC = e7.node_classes(P)
+    ASKS = ("_is_dataset", "_get_dataset_sql", "_apply_measures", "_get_dataset_structure")
+
+    def uses_dataset(f: FuncInfo, depth: int, seen: Set[str]) -> Optional[int]:
+        if f.qualname in seen or depth > 2:
+            return None
+        seen.add(f.qualname)
+        for n in walk_no_nested(f.node):
+            if isinstance(n, ast.Call) and isinstance(n.func, ast.Attribute) and isinstance(n.func.value, ast.Name) and n.func.value.id == "self":
+                if n.func.attr in ASKS and n.args and any(isinstance(x, ast.Name) and x.id == "node" for x in ast.walk(n.args[0])) and src(n.args[0]) != "node":
+                    return n.lineno
+                g = P.lookup_method(ci, n.func.attr)
+                if g is not None and any(isinstance(a, ast.Name) and a.id == "node" for a in n.args):
+                    r = uses_dataset(g, depth + 1, seen)
+                    if r is not None:
+                        return r
+        return None
+    d_sql: Dict[str, Tuple[FuncInfo, int]] = {}
+    for name, f in sorted(ci.methods.items()):
+        if name.startswith("visit_") and name[6:] in NC:
+            ln = uses_dataset(f, 0, set())
+            if ln is not None:
+                d_sql[name[6:]] = (f, ln)
+    rep.floor("R32.5 node classes with a dataset-level SQL form", len(d_sql), 8)
+    gt, gs = P.func(f"{SV}._get_node_type"), P.func(f"{SV}._get_dataset_structure")
+
+    def branches(f: FuncInfo) -> Dict[str, List[ast.If]]:
+        out: Dict[str, List[ast.If]] = {}
+        for n in ast.walk(f.node):
+            if isinstance(n, ast.If):
+                for c in ast.walk(n.test):
+                    if isinstance(c, ast.Call) and getattr(c.func, "id", "") == "isinstance" and len(c.args) == 2:
+                        t = c.args[1]
+                        for e_ in (t.elts if isinstance(t, ast.Tuple) else [t]):
+                            lst = out.setdefault(src(e_).split(".")[-1], [])
+                            if n not in lst:
+                                lst.append(n)
+        return out
+    bt, bs = branches(gt), branches(gs)
+    for X, (hf, ln) in sorted(d_sql.items()):
+        rep.instance("R32.5", f"dataset-form/{X}", nontrivial=True, sample={"handler": hf.name, "asks-about-operand-at": ln, "classifier-branch": X in bt, "structure-branch": X in bs})
+        if X not in bs:
+            rep.add(Finding("R32.5", f"R32.5/no-structure/{X}", gs.module.rel, gs.node.lineno, gs.qualname,
+                            f"{hf.name} has a dataset-level form (it asks about node's operand as a dataset at line {ln}) but _get_dataset_structure has no branch for {X}: "
+                            f"an operator applied to it in the same statement ({X}(DS)[filter …], abs({X}(DS))) finds no structure and run() ends in a raw Python TypeError / DuckDB error"))
+        if X not in bt:
+            rep.add(Finding("R32.5", f"R32.5/classifier/{X}", gt.module.rel, gt.node.lineno, gt.qualname,
+                            f"{hf.name} has a dataset-level form but _get_node_type has no branch for {X} and answers `scalar`: an enclosing operator writes the dataset-level SELECT where "
+                            f"a scalar expression belongs (DuckDB ParserException)"))
+        else:
+            consts = []
+            for br in bt[X]:
+                rets = [r for r in br.body if isinstance(r, ast.Return)]
+                consts.append(rets[0].value.id if rets and isinstance(rets[0].value, ast.Name) and rets[0].value.id in ("_COMPONENT", "_SCALAR") else None)
+            if consts and all(c is not None for c in consts):
+                rep.add(Finding("R32.5", f"R32.5/classifier-constant/{X}", gt.module.rel, bt[X][0].lineno, gt.qualname,
+                                f"{hf.name} has a dataset-level form but _get_node_type answers the constant {consts[0]} for every {X}: abs({X}(DS …)) is written as a scalar "
+                                f"function around a SELECT (DuckDB ParserException)"))
